@@ -390,6 +390,17 @@ func replayCase(rf *vt.ReplayFile) error {
 			return err
 		}
 		return runSelect(&c)
+	case "after-burst":
+		var c burstCase
+		if err := vt.Decode(rf, &c); err != nil {
+			return err
+		}
+		for i := 0; i < 5; i++ {
+			if err := runBurst(&c); err != nil {
+				return err
+			}
+		}
+		return nil
 	case "retry":
 		var c retryCase
 		if err := vt.Decode(rf, &c); err != nil {
